@@ -698,14 +698,11 @@ impl BinArchive {
     }
 
     pub fn find_label_address(&self, target: &str) -> Option<usize> {
-        for (address, bucket) in &self.labels {
-            for label in bucket {
-                if label == target {
-                    return Some(*address);
-                }
-            }
-        }
-        None
+        self.labels
+            .iter()
+            .filter(|(_, bucket)| bucket.iter().any(|label| label == target))
+            .map(|(address, _)| *address)
+            .min()
     }
 
     pub fn pointer_destinations(&self) -> HashSet<usize> {
